@@ -113,14 +113,18 @@ def project_package(parts: dict, ids: Ids) -> tuple[dict, list, list, bool]:
 
 
 # ---------------------------------------------------------------- the document's own view
-def doc_view(doc, names, ids: Ids) -> dict:
-    """What the live document answers for these parts (public get_part)."""
+SHORTCUTS = {"content.xml": "content", "styles.xml": "styles", "meta.xml": "meta", "settings.xml": "settings", MANIFEST: "manifest"}
+
+
+def doc_view(doc, names, ids: Ids, shortcut: bool = False) -> dict:
+    """What the live document answers for these parts (public get_part; with shortcut=True the documented short names
+    "content", "styles", "meta", "settings" are used for the parts that have one)."""
     from odfdo.xmlpart import XmlPart
 
     view = {}
     for name in names:
         try:
-            p = doc.get_part(name)
+            p = doc.get_part(SHORTCUTS.get(name, name) if shortcut else name)
         except Exception:  # noqa: BLE001  deleted / absent
             view[name] = {"s": 0, "l": 0}
             continue
@@ -431,7 +435,8 @@ def history(seed: int, nsteps: int = 10, sources=None) -> list:
                     saved, smf, smf_files, _ok = project_package(parts, ids)
                     ev.update(saved=saved, smf=smf, smf_files=smf_files)
                 else:  # read
-                    ev["view"] = doc_view(doc, rng.sample(sorted(known), min(len(known), 3)), ids)
+                    ev["view"] = doc_view(doc, rng.sample(sorted(known), min(len(known), 3)) + (["content.xml"] if rng.random() < 0.5 else []), ids,
+                                          shortcut=rng.random() < 0.5)
                 if "twin" in handles and rng.random() < 0.5 and op not in ("clone", "reopen"):
                     ev["twin_view"] = doc_view(handles["twin"], sorted(set(handles["twin_names"]) | known), ids)
             except Exception as ex:  # noqa: BLE001
